@@ -599,3 +599,81 @@ func (p *Prog) globalOnce(v ssa.Value) ssa.Value {
 	}
 	return val
 }
+
+// sentinelError: g is a package-level error variable of the module which is
+// given the result of errors.New or fmt.Errorf once, in its package's
+// initialiser, and is written nowhere else: never nil after start-up.
+func (p *Prog) sentinelError(g *ssa.Global) bool {
+	if !p.ownGlobal(g) || !p.stableGlobal(g) {
+		return false
+	}
+	ok := false
+	p.eachModuleInstr(g, func(i ssa.Instruction) {
+		if st, isSt := i.(*ssa.Store); isSt && st.Addr == ssa.Value(g) {
+			if c, isCall := st.Val.(*ssa.Call); isCall {
+				switch calleeName(c.Common()) {
+				case "errors.New", "fmt.Errorf":
+					ok = true
+				}
+			}
+		}
+	})
+	return ok
+}
+
+// globalAliases: the names of the module's package-level variables which are
+// the variable called name or hold the same value from start-up on (var A =
+// pkg.B, in either direction, neither ever reassigned).
+func (p *Prog) globalAliases(name string) map[string]bool {
+	out := map[string]bool{}
+	var gs []*ssa.Global
+	for _, pk := range p.SSA.AllPackages() {
+		if !strings.HasPrefix(pk.Pkg.Path(), ModPath) {
+			continue
+		}
+		for _, m := range pk.Members {
+			if g, ok := m.(*ssa.Global); ok {
+				gs = append(gs, g)
+				if g.Name() == name {
+					out[name] = true
+				}
+			}
+		}
+	}
+	if 0 == len(out) {
+		return out
+	}
+	/* init: *A = *B */
+	type pair struct{ a, b *ssa.Global }
+	var pairs []pair
+	for _, g := range gs {
+		if !p.stableGlobal(g) {
+			continue
+		}
+		ini := g.Pkg.Func("init")
+		if nil == ini {
+			continue
+		}
+		eachInstr(ini, func(i ssa.Instruction) {
+			st, ok := i.(*ssa.Store)
+			if !ok || st.Addr != ssa.Value(g) {
+				return
+			}
+			if u, ok := st.Val.(*ssa.UnOp); ok && token.MUL == u.Op {
+				if h, ok := u.X.(*ssa.Global); ok && p.ownGlobal(h) && p.stableGlobal(h) {
+					pairs = append(pairs, pair{g, h})
+				}
+			}
+		})
+	}
+	for again := true; again; {
+		again = false
+		for _, pr := range pairs {
+			if out[pr.a.Name()] != out[pr.b.Name()] {
+				out[pr.a.Name()], out[pr.b.Name()] = true, true
+				again = true
+			}
+		}
+	}
+	return out
+}
